@@ -2,6 +2,7 @@ SPECIFICATION TSpec
 CONSTANTS
   ShardFailureFix = TRUE
   CursorFix = TRUE
+  CursorRawDecode = FALSE
   NullMemberFix = TRUE
   InputSets <- NoInputs
 CHECK_DEADLOCK FALSE
